@@ -85,8 +85,14 @@ def tlc(workdir, module, cfg=None, extra=(), timeout=3600, workers=None, env=Non
     cmd = ["timeout", str(timeout), "tlc", "-workers", str(workers or WORKERS), "-metadir", md,
            "-config", cfg + ".cfg"] + list(extra) + [module + ".tla"]
     t0 = time.time()
+    # TLC's temporary directories (one per run) go into the work directory, which is removed afterwards, not into /tmp
+    jtmp = md + "-tmp"
+    os.makedirs(jtmp, exist_ok=True)
+    env = dict(env if env is not None else os.environ)
+    env["JAVA_TOOL_OPTIONS"] = (env.get("JAVA_TOOL_OPTIONS", "") + " -Djava.io.tmpdir=" + jtmp).strip()
     p = subprocess.run(cmd, cwd=workdir, capture_output=True, text=True, env=env)
     shutil.rmtree(md, ignore_errors=True)
+    shutil.rmtree(jtmp, ignore_errors=True)
     return p.stdout, p.returncode, time.time() - t0
 
 
